@@ -238,7 +238,7 @@ class Verdicts:
         rep_dir = os.path.join(EVID, "replay")
         if os.path.isdir(rep_dir):
             for fn in os.listdir(rep_dir):
-                if fn.startswith(self.pid + "_"):
+                if re.match(r"^%s_\d+\.json$" % self.pid, fn):
                     os.remove(os.path.join(rep_dir, fn))
         n = len(self.violations)
         evidence["violations"] = n
@@ -293,10 +293,19 @@ def digest(obj):
     return hashlib.sha1(json.dumps(obj, sort_keys=True).encode()).hexdigest()[:12]
 
 
+def no_nulls(o):
+    """TLC's Json module cannot read null: drop null members, turn null list items into the string "null"""
+    if isinstance(o, dict):
+        return {k: no_nulls(v) for k, v in o.items() if v is not None}
+    if isinstance(o, (list, tuple)):
+        return ["null" if v is None else no_nulls(v) for v in o]
+    return o
+
+
 def write_ndjson(path, objs):
     with open(path, "w") as f:
         for o in objs:
-            f.write(json.dumps(o, separators=(",", ":")) + "\n")
+            f.write(json.dumps(no_nulls(o), separators=(",", ":")) + "\n")
 
 
 def read_ndjson(path):
